@@ -146,12 +146,39 @@ CLAIMS['C06'] = dict(
     technique='Verus contracts on extracted ConstraintVal::check, Val::equal (scalars), VM::op_build_constraint/op_check_constraint',
 )
 
+CLAIMS['C03'] = dict(
+    text=('PARTIAL (the ucg-owned half): for every value tree, the real Val -> serde_json / toml / serde_yaml value mappers return Ok exactly when '
+          'the abstract data tree of the value is defined (constraint values are errors; NULL is an error for TOML; a non-finite float is an '
+          'error for JSON) and then the format value denotes exactly that tree: integers exactly, strings/bools identical, lists same length '
+          'and order element-wise, tuples same key set value-wise; any failing element fails the whole conversion (nothing dropped). The VM '
+          'value -> Val lowering preserves the tree. KNOWN FINDING (not proved, reported on every run): the JSON converter routes integers '
+          'through f64. The text produced by the serializers and its validity for an independent decoder are NOT covered (dependencies).'),
+    design_ref='DESIGN.md §5 C03',
+    note=('Trusted: Verus/Z3; serde_json::Number / Map, toml Table, serde_yaml Mapping and to_value are models written from the pinned '
+          'sources (serde_json and toml without preserve_order: BTreeMap, key-sorted; first-insert-wins for entry().or_insert, last-wins '
+          'keeping position for Mapping::insert); f64 finiteness uninterpreted; TOML/YAML pass non-finite floats through (the formats can '
+          'represent them); yamlmulti framing not covered.'),
+    technique='Verus contracts on extracted convert_value/convert_list/convert_tuple/convert_env of the three converters against an abstract data tree',
+)
+CLAIMS['C15'] = dict(
+    text=('PARTIAL (the ucg-owned half): for every parsed format value, the real serde_json / toml / serde_yaml value -> Val mappers return '
+          'a value denoting the same abstract data tree (integers that fit i64 as Int, other numbers as Float, integers above i64::MAX an '
+          'error, strings/bools identical, null as NULL, arrays order-preserving, objects key- and value-preserving; YAML under the '
+          'property\'s hypothesis: unique string keys, no merge keys or tags); the real include hook pops both operands, returns the file\'s '
+          'text unchanged for `str` (UTF-8 decoding specified by vstd), is an error for an unknown type or an importer error, and otherwise '
+          'pushes exactly the importer\'s value for exactly the file\'s bytes; b64/b64urlsafe select the matching alphabet. The parsers '
+          '(text -> format value) are dependencies and are assumed.'),
+    design_ref='DESIGN.md §5 C15',
+    note=('Trusted: Verus/Z3; from_slice of each dependency as an uninterpreted parse function; Map/Table/Mapping models (JSON and TOML objects '
+          'arrive in ascending key order: preserve_order is off); u64/i64 as f64 uninterpreted; file system as a ghost World; base64 Engine::encode; '
+          'the cross-unit link from include_hook to the three importers is by contract text, not mechanised.'),
+    technique='Verus contracts on extracted convert_json_val/convert_toml_val/convert_yaml_val, Builtins::include and the importer registry',
+)
+
 NOT_APPLICABLE = {
-    'C03': 'unit not completed yet (Val->format value mappers planned, DESIGN §5 C03)',
     'C07': 'relational completeness between the whole type checker and the whole evaluator; no per-function contract within reach of Verus/Kani states "accepts what runs" (DESIGN §5 C07)',
     'C09': 'quantifies over file-system trees, working directories and import graphs; mechanisms are a generic &mut-AST walker, std::path and RefCell caches re-entered through recursive VM::run - not expressible as function contracts the installed verifiers can check (DESIGN §5 C09)',
     'C12': 'well-formedness, escaping and namespaces are produced by the xml-rs dependency; the property is about those bytes and an independent parser (DESIGN §5 C12)',
-    'C15': 'unit not completed yet (format value->Val mappers planned, DESIGN §5 C15)',
     'C16': 'hyperproperty over runs of a process (sets/orders of files) through cross-file memoisation; needs the whole compiler specified as a function of the file system (DESIGN §5 C16)',
     'C17': 'diagnostic positions are plumbed through ~120 translator push sites and parser-combinator error contexts; needs end positions the AST does not carry and relates two runs (DESIGN §5 C17)',
     'C19': 'the helpers are UCG programs (std/*.ucg), not Rust; neither verifier reads UCG (DESIGN §5 C19)',
